@@ -524,8 +524,23 @@ func runC05(c *Ctx) {
 		for _, cb := range g.CondBlocks() {
 			ast.Inspect(cb.Cond, func(x ast.Node) bool {
 				be, isB := x.(*ast.BinaryExpr)
-				if !isB || be.Op != token.EQL || len(core.CallsTo(sinfo, be.Y, false, "io/fs.FileInfo.Size")) != 1 {
+				if !isB || be.Op != token.EQL {
 					return true
+				}
+				// the file size: stat.Size(), or a local holding it; on either side
+				isSize := func(e ast.Expr) bool {
+					for _, y := range expand(g, e, 1) {
+						if len(core.CallsTo(sinfo, y, false, "io/fs.FileInfo.Size")) == 1 {
+							return true
+						}
+					}
+					return false
+				}
+				if !isSize(be.Y) {
+					if !isSize(be.X) {
+						return true
+					}
+					be = &ast.BinaryExpr{X: be.Y, Op: be.Op, Y: be.X}
 				}
 				if p := core.PathOf(sinfo, be.X); p.Valid() {
 					for _, as := range g.AssignsTo(p.Root) {
